@@ -9,6 +9,7 @@ package main
 import (
 	"fmt"
 	"go/ast"
+	"go/constant"
 	"go/token"
 	"go/types"
 	"sort"
@@ -100,6 +101,21 @@ func assemble(r *Repo, ti *tmplInfo, m *model, em *emission, name string) (*genF
 					}
 				}
 			} else if len(x.Lhs) == 1 && len(x.Rhs) == 1 {
+				// the table filled entry by entry: _rules[rule<Name>] = func() bool { … }
+				if ix, ok := x.Lhs[0].(*ast.IndexExpr); ok {
+					if id, ok := ix.X.(*ast.Ident); ok && id.Name == "_rules" {
+						if fl, ok := x.Rhs[0].(*ast.FuncLit); ok {
+							if tv, ok := in.Info.Types[ix.Index]; ok && tv.Value != nil {
+								if k, ok := constant.Int64Val(constant.ToInt(tv.Value)); ok && k >= 0 && k < 1<<20 {
+									for int64(len(gf.rules)) <= k {
+										gf.rules = append(gf.rules, nil)
+									}
+									gf.rules[k] = fl
+								}
+							}
+						}
+					}
+				}
 				if id, ok := x.Lhs[0].(*ast.Ident); ok && id.Name == "_rules" {
 					if cl, ok := x.Rhs[0].(*ast.CompositeLit); ok {
 						for _, e := range cl.Elts {
@@ -115,6 +131,10 @@ func assemble(r *Repo, ti *tmplInfo, m *model, em *emission, name string) (*genF
 		}
 		return true
 	})
+	// a table filled entry by entry has no placeholders for rules without a function
+	for len(gf.rules) > 0 && len(gf.rules) < len(cfgT.RuleNames)+1 {
+		gf.rules = append(gf.rules, nil)
+	}
 	return gf, nil
 }
 
@@ -265,11 +285,11 @@ func split(u *universe, know map[string]string, p string, accept func(rune) bool
 
 // outcome of a rule function
 type outcome struct {
-	Kind      string // true, false, memo
-	Pos, Tok  string
-	Hist      []string
-	Flags     []string
-	Know      map[string]string // position term -> the runes the input can have there on this path
+	Kind     string // true, false, memo
+	Pos, Tok string
+	Hist     []string
+	Flags    []string
+	Know     map[string]string // position term -> the runes the input can have there on this path
 }
 
 func knowKey(k map[string]string) string {
